@@ -34,8 +34,13 @@ func (c *Conn) VerifState() string {
 	pipe := c.bdatPipe != nil
 	c.locker.Unlock()
 	_, isTLS := c.TLSConnectionState()
-	return fmt.Sprintf("helo=%t sess=%t err=%d from=%t rcpts=%d pipe=%t bdatStatus=%t bytes=%d binmime=%t auth=%t tls=%t linelimit=%d curline=%d pendingresult=%d",
-		c.helo != "", sess, c.errCount, c.fromReceived, len(c.recipients), pipe, c.bdatStatus != nil,
+	// the per-recipient status collector of an open LMTP transfer: how many recipients it was built for (-1: none)
+	collector := -1
+	if c.bdatStatus != nil {
+		collector = len(c.bdatStatus.status)
+	}
+	return fmt.Sprintf("helo=%t sess=%t err=%d from=%t rcpts=%d pipe=%t bdatStatus=%d bytes=%d binmime=%t auth=%t tls=%t linelimit=%d curline=%d pendingresult=%d",
+		c.helo != "", sess, c.errCount, c.fromReceived, len(c.recipients), pipe, collector,
 		c.bytesReceived, c.binarymime, c.didAuth, isTLS, c.lineLimitReader.LineLimit, c.lineLimitReader.curLineLength, len(c.dataResult))
 }
 
